@@ -513,6 +513,44 @@ func rulePartialDecoderFreshRecord(c *report.Ctx) {
 		})
 		partial = w != nil
 	}
+	// where the record comes from: a parameter of the decoder, or the decoder's own allocation handed back
+	recIdx := -1
+	for i, q := range dec.Params {
+		if ws != nil {
+			if n := an.NamedOf(q.Type()); n != nil && n.Obj() == ws.Obj() && isPtrT(q.Type()) {
+				recIdx = i
+			}
+		}
+	}
+	ownRecord := false
+	if recIdx < 0 && ws != nil {
+		ownRecord = true
+		found := false
+		for _, b := range dec.Blocks {
+			r, isRet := b.Instrs[len(b.Instrs)-1].(*ssa.Return)
+			if !isRet {
+				continue
+			}
+			for _, rv := range r.Results {
+				if n := an.NamedOf(rv.Type()); n == nil || n.Obj() != ws.Obj() || !isPtrT(rv.Type()) {
+					continue
+				}
+				for _, o := range (&an.Tracer{P: p}).Origins(rv) {
+					switch x := o.V.(type) {
+					case *ssa.Alloc:
+						found = found || x.Parent() == dec
+						if x.Parent() != dec {
+							ownRecord = false
+						}
+					case *ssa.Const:
+					default:
+						ownRecord = false
+					}
+				}
+			}
+		}
+		ownRecord = ownRecord && found
+	}
 	n := 0
 	for _, f := range p.ModFuncs {
 		if pk := an.FuncPkg(f); pk == nil || !strings.HasPrefix(pk.Path(), pkgWallet) {
@@ -521,6 +559,10 @@ func rulePartialDecoderFreshRecord(c *report.Ctx) {
 		for i, s := range calls(f, dec) {
 			n++
 			key := siteKey(f, "readWalletStatus-record", i+1)
+			if ownRecord {
+				c.OK(key, "the decoder allocates the record it fills and hands it back: one row per record", posOf(c, s))
+				continue
+			}
 			if !partial {
 				c.OK(key, "the decoder assigns every field on every success path", posOf(c, s))
 				continue
@@ -532,6 +574,9 @@ func rulePartialDecoderFreshRecord(c *report.Ctx) {
 			}
 			args := an.CallOf(s).Args
 			rec := args[len(args)-1]
+			if recIdx >= 0 && recIdx < len(args) {
+				rec = args[recIdx]
+			}
 			al, isAlloc := rec.(*ssa.Alloc)
 			if isAlloc && loopHeaderOf(al.Block()) == hdr {
 				c.OK(key, "decodes into a record allocated in the same iteration", posOf(c, s))
